@@ -282,6 +282,24 @@ def channel_case(p, res):
                 if float((nz - k * na).abs().max()) > 5e-4 * float(nz.abs().max()) + 1e-12 + 8 * 1.2e-7 * (1 + k) * float(ref(xs).abs().max()):
                     v("scale-law", f"same seed: noise({par}={val}) != {k:.4g} * noise({par}={a})", {"a": a, "b": val})
             prev = (val, nz)
+        # every call consumes fresh randomness: two calls without reseeding (same object, fresh object) give different noise in every sample,
+        # the same seed replays it
+        try:
+            val0 = values[len(values) // 2]
+            run, ref = build(ch, par, val0, mode)
+            run2, _ = build(ch, par, val0, mode)
+            torch.manual_seed(77)
+            n1, n2, n3 = run(xs) - ref(xs), run(xs) - ref(xs), run2(xs) - ref(xs)
+            torch.manual_seed(77)
+            n4 = run(xs) - ref(xs)
+            res.ev(3, nontrivial=3, transitions=4)
+            s12, s13 = int(((n1 - n2).abs() < 1e-12).sum()), int(((n1 - n3).abs() < 1e-12).sum())
+            if s12 or s13:
+                v("fresh-noise", f"two calls without reseeding share noise samples: {s12} of {n1.numel()} identical on the same object, {s13} on a fresh object")
+            if not torch.equal(n1, n4):
+                v("fresh-noise", "the same seed does not replay the same noise")
+        except Exception as e:  # noqa: BLE001
+            v("raises", f"repeated calls: {type(e).__name__}: {str(e)[:200]}")
         if ch in ("awgn", "flatfading-csi"):
             import kaira.channels as K
             c = K.AWGNChannel(avg_noise_power=0.3) if ch == "awgn" else K.FlatFadingChannel("rayleigh", 3, avg_noise_power=0.3)
